@@ -29,6 +29,14 @@ def _sig(ops, io, mo, k):
             sig["tube"] = TUBES.get(f[2], "type" + f[2]) + ("" if f[3] == "1" else "-unreliable")
         else:
             sig["kind"] = "tube-%s-expected-%s-in-%s-session" % (iv, mv, sess)
+    elif f[0] == "issue":
+        kinds = _session_kinds(ops[:k], io[:k])
+        sess = kinds[int(f[1])] if f[1].isdigit() and int(f[1]) < len(kinds) else "?"
+        if iv in ("confirmed", "denied") and mv == "closed" and sess == "grant":
+            sig["kind"] = "ungranted-tube-served"
+            sig["tube"] = "agc-issue-" + iv
+        else:
+            sig["kind"] = "issue-%s-expected-%s-in-%s-session" % (iv, mv, sess)
     elif f[0] == "exec":
         if iv == "started" and mv == "refused":
             sig["kind"] = "exec-started-without-valid-grant"
@@ -46,7 +54,7 @@ def _sig(ops, io, mo, k):
 def _nontrivial(ops, outs):
     # a history in which something was started and something was refused
     v = [o.split(" ", 1)[0] for o in outs]
-    return ("started" in v and "refused" in v) or ("served" in v and "closed" in v)
+    return ("started" in v and "refused" in v) or ("served" in v and "closed" in v) or ("confirmed" in v and "denied" in v)
 
 
 def _classify(op, out):
